@@ -46,7 +46,7 @@ def cmpFloats (model : List Rat) (tols : List Rat) (impl : List String) : Option
     | _, _, _, k => some s!"component {k} missing"
   go model tols impl 0
 
-def handle (case impl : List String) : Verdict :=
+def handle0 (case impl : List String) : Verdict :=
   match case with
   | ["next", s] =>
     match st? s with
@@ -217,5 +217,14 @@ def handle (case impl : List String) : Verdict :=
       else v.withSpec true "uf32-out-of-range" s!"{bad - implAtEnd} samples outside [start,end]; first bad m={impl.getD 2 ""}"
     | _, _, _, _ => bad "fdig"
   | _ => bad "unknown op"
+
+
+/-- Composite distributions carry a trailing token `seq=1|0` from the harness: the implementation's own
+component-by-component scalar draws from the same seed give the same sample and the same final state. -/
+def handle (case impl : List String) : Verdict :=
+  let seqBad := impl.contains "seq=0"
+  let v := handle0 case (impl.filter fun t => !t.startsWith "seq=")
+  v.withSpec seqBad "components-not-drawn-in-order"
+    "the composite distribution does not equal drawing its components one at a time, in order, from the same generator state"
 
 end Retro.Drv.C19
